@@ -72,6 +72,8 @@ pub mod bbsplus_utils {
         let mut rng = thread_rng();
         let mut secret = vec![0; n]; // Initialize a vector of length n with zeros
         rng.fill_bytes(&mut secret); // Fill the vector with random bytes
+        #[cfg(zkryptium_verif)]
+        crate::verif_hooks::rng_draw("generate_random_secret", (n * 8) as u32, &secret);
         secret
     }
     /// # Description
@@ -325,6 +327,13 @@ pub mod bbsplus_utils {
 
     pub(crate) fn get_random() -> Scalar {
         let rng = rand::thread_rng();
+        #[cfg(zkryptium_verif)]
+        return {
+            let s = Scalar::random(rng);
+            crate::verif_hooks::rng_draw("get_random", 255, &s.to_be_bytes());
+            s
+        };
+        #[cfg(not(zkryptium_verif))]
         Scalar::random(rng)
     }
 
